@@ -270,6 +270,11 @@ func genHist(profile string, n int, r *Rng, emit func(Case)) {
 		}
 		if profile == "count" || (profile == "type" && r.Intn(4) == 0) {
 			kind = "G" // generator-backed: opaque in v3 whatever the length of its stream
+			if profile == "type" && len(raw) > 0 && r.Intn(4) == 0 {
+				// a stream whose very first value is no digit 1-9: NewNumber returns the zero number (bounded by construction)
+				raw[0] = r.Pick([]int{-1, 0, 10, -2, 256, 1000, MinInt})
+				g.length = 0
+			}
 		}
 		if (profile == "read" || profile == "chain") && ver == "v3" && len(raw) >= 2 && r.Intn(6) == 0 {
 			// a generator-backed Number whose stream misbehaves: its digits are the longest prefix within 0-9
@@ -547,6 +552,7 @@ func init() {
 		genLongScans(tier, r, emit)
 		// printing to a failing writer must not consult the digits of later ranges either (as C12)
 		genC12Far(tier, r, emit)
+		genPrintLazy(tier, r, emit)
 		// searches are operations too: nothing is consulted beyond the end of the last reported match (+ read-ahead)
 		old := caseBudget
 		caseBudget = 4 * time.Second
